@@ -64,6 +64,7 @@ type rnode struct {
 	cut          bool
 	starts       int
 	light        bool
+	mh           host.Host           // the incarnation's libp2p host: closed when the incarnation ends, as a process exit would
 	genesis      *genesispkg.Genesis // nil: the world's genesis
 	signer       signer.Signer       // nil: the world's proposer key (aggregators only)
 	extraPeers   string              // further configured P2P peers
@@ -151,6 +152,7 @@ func (rw *rworld) start(rn *rnode) {
 	if err != nil {
 		panic(err)
 	}
+	rn.mh = mh
 	var h host.Host = &slowHost{Host: mh, d: rw.streamDelay}
 	sn := rn.sn
 	cfg := config.DefaultConfig
@@ -249,6 +251,7 @@ func (rw *rworld) stop(rn *rnode, kill bool, step int) bool {
 		return false
 	}
 	rn.up = false
+	rn.closeHost()
 	if kill {
 		restoreDir(rn.sn.Root, files)
 	}
@@ -264,6 +267,13 @@ func (rw *rworld) stop(rn *rnode, kill bool, step int) bool {
 		}
 	}
 	return true
+}
+
+func (rn *rnode) closeHost() {
+	if rn.mh != nil {
+		_ = rn.mh.Close()
+		rn.mh = nil
+	}
 }
 
 // checkIncluded reads the DA-included height a stopped node has persisted: it never decreases from one
@@ -298,6 +308,7 @@ func (rw *rworld) reap(step int, what string) bool {
 		select {
 		case <-x.done:
 			x.up = false
+			x.closeHost() // Run returned (e.g. a refused start): the process is gone, and its connections with it
 			x.sn.Fence.Kill()
 			if !rw.checkIncluded(x, step) {
 				return false
@@ -402,6 +413,9 @@ func c13RestartBody(t *testing.T, s *sim.Scn, o *sim.Outcome) {
 		case "tx":
 			inject(1 + int(op.B%3))
 		case "stop", "kill":
+			if rn == agg && op.K == "kill" {
+				o.Count("timeline:seq-killed-or-cut", 1)
+			}
 			rn.wantUp = false
 			if !rw.stop(rn, op.K == "kill", i) {
 				if o.V != nil {
@@ -421,6 +435,9 @@ func c13RestartBody(t *testing.T, s *sim.Scn, o *sim.Outcome) {
 		case "cut":
 			// the node's P2P links go down (DA stays reachable)
 			if rn.up && !rn.cut {
+				if rn == agg {
+					o.Count("timeline:seq-killed-or-cut", 1)
+				}
 				rn.cut = true
 				for _, other := range rw.nodes {
 					if other != rn {
@@ -510,7 +527,31 @@ func c13RestartBody(t *testing.T, s *sim.Scn, o *sim.Outcome) {
 	time.Sleep(2 * rw.bt)
 	target := agg.sn.Height()
 	final := 40*rw.dat + 60*time.Second
+	// cfg p2ponly=1 (and the sequencer node was never killed or cut, so its P2P stores hold the whole chain):
+	// during the final phase the full nodes cannot read the DA layer at all - everything has to reach them over P2P
+	p2pOnly := s.Cfg["p2ponly"] == 1 && o.Counters["timeline:seq-killed-or-cut"] == 0
+	if p2pOnly {
+		rw.w.DA.ReadOutage = true
+		o.Count("timeline:p2p-only-final-phase", 1)
+	}
 	time.Sleep(final)
+	// what has reached the full nodes' P2P stores by now must be applied a little later
+	type p2pSeen struct{ h, d uint64 }
+	seenP2P := map[string]p2pSeen{}
+	if p2pOnly {
+		for _, x := range fulls {
+			if fn, ok := x.n.(interface{ VerifP2PStoreHeights() (uint64, uint64) }); ok && x.up {
+				h, d := fn.VerifP2PStoreHeights()
+				seenP2P[x.name] = p2pSeen{h, d}
+			}
+		}
+		time.Sleep(10*rw.bt + 2*time.Second)
+	}
+	if f := os.Getenv("VERIF_DUMP_STACK"); f != "" {
+		buf := make([]byte, 1<<24)
+		_ = os.WriteFile(f, buf[:runtime.Stack(buf, true)], 0o644)
+	}
+	rw.w.DA.ReadOutage = false
 	reached := map[string]uint64{}
 	for _, x := range fulls {
 		reached[x.name] = x.sn.Height()
@@ -574,6 +615,29 @@ func c13RestartBody(t *testing.T, s *sim.Scn, o *sim.Outcome) {
 		}
 	}
 	for _, f := range fulls {
+		p2pH, p2pD := uint64(0), p2pDataStoreHeight(f)
+		if st, err := p2pHeaderStore(f); err == nil {
+			if head, err := st.Head(bg); err == nil {
+				p2pH = head.Height()
+			}
+		}
+		o.Count("full-node:p2p-header-store-height", int(p2pH))
+		o.Logf("%s: chain height %d (%d at the end of the final phase), P2P header store %d, P2P data store %d, proposer %d", f.name, f.sn.Height(), reached[f.name], p2pH, p2pD, ah)
+		if p2pOnly {
+			// C02 over the real P2P path: whatever reached the node's P2P stores by the end of the phase (less the last
+			// few blocks, which may still be in flight) has been applied - the DA layer could not be read
+			got := seenP2P[f.name].h
+			if d := seenP2P[f.name].d; d < got {
+				got = d
+			}
+			tol := uint64(2)
+			if got > tol && reached[f.name]+tol < got {
+				o.Fail("C13/invariant-C02-violated", "C13/invariant-C02-violated/received-over-p2p-but-not-applied/"+f.name, -1,
+					fmt.Sprintf("%s had received headers up to %d and data up to %d over P2P (heights of its P2P stores) while it could not read the DA layer; 10 block times + 2 s later its chain is at %d", f.name, seenP2P[f.name].h, seenP2P[f.name].d, reached[f.name]),
+					"a full node applies the blocks whose header and data it has received, over whichever channel")
+				return
+			}
+		}
 		fh := f.sn.Height()
 		for x := uint64(1); x <= fh; x++ {
 			a, _, e1 := agg.sn.Peek().GetBlockData(bg, x)
@@ -601,13 +665,13 @@ func c13RestartBody(t *testing.T, s *sim.Scn, o *sim.Outcome) {
 			}
 			onDA = x
 		}
-		if inc := f.lastIncluded; inc < onDA && reached[f.name] >= onDA {
+		if inc := f.lastIncluded; inc < onDA && reached[f.name] >= onDA && !p2pOnly { // (a node that cannot read the DA layer cannot observe inclusion)
 			o.Fail("C13/invariant-C07-violated", "C13/invariant-C07-violated/da-included-not-reached/"+f.name, -1,
 				fmt.Sprintf("%s (started %d times) applied blocks up to %d and both parts of every block up to %d are on the DA layer, but after a fault-free final phase of %v its DA-included height is %d", f.name, f.starts, reached[f.name], onDA, final, inc),
 				"once both parts of every block up to h are on the DA layer the node eventually reports h, including after a restart")
 			return
 		}
-		if reached[f.name] < target {
+		if reached[f.name] < target && !p2pOnly {
 			o.Fail("C13/invariant-C02-violated", "C13/invariant-C02-violated/not-converged-after-faults-stop/"+f.name, -1,
 				fmt.Sprintf("%s (started %d times) is at height %d after a fault-free final phase of %v with all nodes up, all links healed and a healthy DA layer; the proposer was at %d when the phase began (and is at %d now)", f.name, f.starts, reached[f.name], final, target, ah),
 				"once faults stop the full node reaches the proposer's chain")
@@ -623,7 +687,7 @@ func c13RestartBody(t *testing.T, s *sim.Scn, o *sim.Outcome) {
 func c13RestartGen(r *rand.Rand, tier string) *sim.Scn {
 	s := &sim.Scn{Cfg: map[string]int64{
 		"restart": 1, "nfull": r.Int64N(2), "bt": []int64{250, 500, 1000}[r.IntN(3)], "dat": []int64{1000, 3000}[r.IntN(2)],
-		"lazy": r.Int64N(2), "maxpending": []int64{0, 0, 3}[r.IntN(3)], "dalat": []int64{0, 5, 50}[r.IntN(3)], "linkms": []int64{0, 3, 18, 38}[r.IntN(4)], "eager": r.Int64N(2), "light": []int64{0, 0, 1}[r.IntN(3)],
+		"lazy": r.Int64N(2), "maxpending": []int64{0, 0, 3}[r.IntN(3)], "dalat": []int64{0, 5, 50}[r.IntN(3)], "linkms": []int64{0, 3, 18, 38}[r.IntN(4)], "eager": r.Int64N(2), "light": []int64{0, 0, 1}[r.IntN(3)], "p2ponly": r.Int64N(2),
 	}}
 	n := 4 + r.IntN(10)
 	for i := 0; i < n; i++ {
